@@ -67,10 +67,19 @@ fn cat(v: &[Vec<u8>]) -> Vec<u8> {
 const SUBST: [(&str, &[u8]); 5] = [("~e~", "\u{e9}".as_bytes()), ("~z~", "\u{4e2d}".as_bytes()), ("~g~", "\u{1F600}".as_bytes()),
                                    ("~u~", "\u{fc}".as_bytes()), ("~!~", &[0xFF])];
 
+/// ~big~ expands to 70 000 highly compressible bytes (a single compressed chunk then inflates to more than any codec buffer)
+pub const BIG: &str = "~big~";
+pub const BIG_LEN: usize = 70_000;
+
 pub fn concretise(unit: &str) -> Vec<u8> {
     let mut out: Vec<u8> = Vec::new();
     let mut rest = unit;
     'outer: while !rest.is_empty() {
+        if rest.starts_with(BIG) {
+            out.extend(std::iter::repeat(b'y').take(BIG_LEN));
+            rest = &rest[BIG.len()..];
+            continue;
+        }
         for (k, v) in SUBST.iter() {
             if rest.starts_with(k) {
                 out.extend_from_slice(v);
@@ -91,6 +100,11 @@ pub fn lossy(b: &[u8]) -> String {
     let mut out = String::new();
     let mut i = 0;
     'outer: while i < b.len() {
+        if b.len() - i >= BIG_LEN && b[i..i + BIG_LEN].iter().all(|x| *x == b'y') {
+            out.push_str(BIG);
+            i += BIG_LEN;
+            continue;
+        }
         for (k, v) in SUBST.iter() {
             if b[i..].starts_with(v) {
                 out.push_str(k);
@@ -159,18 +173,23 @@ pub fn run(case: &Value) -> Vec<Value> {
     if sched.len() == 1 {
         // byte level sweep: every single cut, and one byte at a time; only differing outputs are kept
         let mut diffs = Vec::new();
-        for c in 1..body.len() {
+        // every single cut (a stride on very long bodies)
+        let step = if body.len() > 3000 { body.len() / 400 } else { 1 };
+        let mut c = 1;
+        while c < body.len() {
             let o = cat(&run_chunks(mk(), &headers, &[&body[..c], &body[c..]]));
             if o != whole {
                 diffs.push(json!([c, lossy(&o)]));
             }
+            c += step;
         }
-        let bytes: Vec<&[u8]> = body.chunks(1).collect();
+        let unit = if body.len() > 3000 { 97 } else { 1 };
+        let bytes: Vec<&[u8]> = body.chunks(unit).collect();
         let o1 = cat(&run_chunks(mk(), &headers, &bytes));
         // an empty chunk interleaved after every byte
         let mut inter: Vec<&[u8]> = Vec::new();
         let empty: &[u8] = &[];
-        for b in body.chunks(1) {
+        for b in body.chunks(unit) {
             inter.push(b);
             inter.push(empty);
         }
